@@ -55,7 +55,8 @@ META = {
     "exhaustive": {"quick": False, "thorough": False},
     "require": ["objects_compared", "attrs_compared", "gone_rows_checked", "evaluate_raised",
                 "sync_fetch", "sync_evaluate", "sync_auto", "stmt_update", "stmt_delete",
-                "discriminating_statements", "auto_fallback_to_fetch_cases"],
+                "discriminating_statements", "auto_fallback_to_fetch_cases", "attrs_reloaded_compared",
+                "statements_with_execute_time_params", "generated_columns_changed_by_update"],
     "assumptions": ["exec_driver_sql on the session's connection shows the in-transaction rows",
                     "SQLite evaluates the rendered criteria per the SQL standard's three-valued logic"],
 }
@@ -64,6 +65,7 @@ NUM_COLS = ("x", "y")
 CMP = ("eq", "ne", "lt", "le", "gt", "ge")
 SYNCS = ("fetch", "evaluate", "auto")
 UNEVALUABLE = {"between", "distinct", "like", "contains"}
+LINE_BREAKS = ("\n", "\r", "\u2028", "\u2029", "\x85", "\x0b", "\x0c")
 
 
 # --------------------------------------------------------------------------
@@ -132,7 +134,31 @@ def build(spec, cls):
         return build(spec[1], cls).is_distinct_from(build(spec[2], cls))
     if k == "const":
         return sa.true() if spec[1] else sa.false()
+    if k == "param":
+        # named bindparam WITHOUT a value: the value is supplied at execute time
+        _, name, value = spec
+        return sa.bindparam(name, type_=sa.String() if isinstance(value, str) else sa.Integer())
+    if k == "inparam":
+        _, neg, a, name, vals = spec
+        a = build(a, cls)
+        bp = sa.bindparam(name, expanding=True, type_=sa.Integer())
+        return a.not_in(bp) if neg else a.in_(bp)
     raise ValueError(spec)
+
+
+def spec_params(spec, acc=None):
+    """execute-time parameters {name: value} a spec (or tuple of specs) refers to"""
+    acc = {} if acc is None else acc
+    if isinstance(spec, (list, tuple)):
+        if spec and spec[0] == "param":
+            acc[spec[1]] = spec[2]
+        elif spec and spec[0] == "inparam":
+            acc[spec[3]] = list(spec[4])
+            spec_params(spec[2], acc)
+        else:
+            for x in spec:
+                spec_params(x, acc)
+    return acc
 
 
 def spec_cols(spec, acc=None):
@@ -163,7 +189,7 @@ def subspecs_postorder(spec):
         kids = [spec[2], spec[3]]
     elif k == "concat":
         kids = [spec[1], spec[2]]
-    elif k == "in":
+    elif k in ("in", "inparam"):
         kids = [spec[2]]
     elif k in ("and", "or"):
         kids = list(spec[1])
@@ -208,6 +234,8 @@ def culprit_name(spec, expr, rowvals):
         return "evaluator-not-3vl"
     if k == "bin" and spec[1] == "mod":
         return "evaluator-mod-sign"
+    if spec_params(spec):
+        return "execute-time-bindparam-ignored"
     if k == "in":
         if any(v is None for v in spec[3]):
             return "evaluator-notin-null"
@@ -216,6 +244,9 @@ def culprit_name(spec, expr, rowvals):
         return "evaluator-" + opname
     if k in ("sw", "ew"):
         pat, autoescape, escape = spec[1], spec[2], spec[3]
+        if any(ch in (rowvals.get("s") or "") for ch in LINE_BREAKS):
+            # the value holds a line break in the part a LIKE wildcard has to cover
+            return "evaluator-like-line-break-in-value"
         if escape and (len(pat) - len(pat.rstrip(escape))) % 2 == 1:
             # operand ends in a dangling escape character: in SQL it swallows the
             # wildcard that startswith()/endswith() concatenates to the operand
@@ -247,7 +278,7 @@ def localize(rigobj, cls, spec, ids, prefix, variant):
             rigobj.load(s, cls, variant, None)
             s.flush()
         for kind, crit, setspec in prefix:
-            s.execute(rigobj.statement(cls, kind, crit, setspec),
+            s.execute(rigobj.statement(cls, kind, crit, setspec), spec_params((crit, setspec)),
                       execution_options={"synchronize_session": False})
         s.expire_all()
         objs = {o.id: o for o in s.scalars(sa.select(cls).where(cls.id.in_(ids)))}
@@ -264,7 +295,7 @@ def localize(rigobj, cls, spec, ids, prefix, variant):
                     pv = fn(objs[i])
                 except Exception:
                     continue
-                sv = conn.execute(sa.select(expr).where(cls.id == i)).scalar()
+                sv = conn.execute(sa.select(expr).where(cls.id == i), spec_params(sub)).scalar()
                 if _norm(pv) != _norm(sv):
                     o = objs[i]
                     rowvals = {c: getattr(o, c) for c in ("x", "y", "s", "n", "m")}
@@ -289,6 +320,9 @@ class Rig:
         self.ctx, self.sa, self.orm, self.rig = ctx, sa, orm, rig
         self.engine = sa.create_engine("sqlite://", poolclass=StaticPool)
         rig.Base43.metadata.create_all(self.engine)
+        with self.engine.begin() as c:
+            for ddl in rig.ITEM_TRIGGERS:
+                c.exec_driver_sql(ddl)
         rows = rig.item_rows()
         with self.engine.begin() as c:
             for cls in (rig.Item, rig.ItemNR):
@@ -359,7 +393,10 @@ class Rig:
                 raised = None
                 rowcount = None
                 try:
-                    res = s.execute(st, execution_options={"synchronize_session": sync})
+                    params = spec_params((crit, setspec))
+                    if params:
+                        ctx.count("statements_with_execute_time_params")
+                    res = s.execute(st, params, execution_options={"synchronize_session": sync})
                     rowcount = res.rowcount
                 except Exception as e:
                     if sync != "evaluate":
@@ -368,7 +405,7 @@ class Rig:
                     ctx.count("evaluate_raised")
                     ctx.seen("evaluate_raise_types", type(e).__name__)
                 rows = {r[0]: r for r in s.connection().exec_driver_sql(
-                    "SELECT id, x, y, s, n, m, u FROM %s" % tname)}
+                    "SELECT %s FROM %s" % (", ".join(self.rig.ITEM_COLS), tname))}
                 desc = {"kind": kind, "crit": crit, "set": setspec}
                 nontriv = rowcount is not None and 0 < rowcount < self.nrows
                 if nontriv:
@@ -379,6 +416,8 @@ class Rig:
                 if sync == "auto" and crit is not None and UNEVALUABLE & set(_kinds(crit).split(",")):
                     ctx.count("auto_fallback_to_fetch_cases")
                 bad = self.judge(s, pairs, rows, pre)
+                if not bad and raised is None:
+                    bad = self.judge_reload(s, pairs, rows)
                 if sample:
                     ctx.sample({"steps": steps, "sync": sync, "variant": variant, "table": table,
                                 "rowcount": rowcount, "raised": type(raised).__name__ if raised else None})
@@ -426,6 +465,28 @@ class Rig:
                             "sentinel": any(any(o.__dict__.get(c) is z for z in self.sentinels) for c in diffs)})
         return bad
 
+    def judge_reload(self, s, pairs, rows, limit=3):
+        """the other half of 'equals the database': attributes that are NOT loaded (expired by
+        the synchronisation, or never loaded) must come back equal to the row when accessed.
+        A few objects per case only (each costs a SELECT); matched objects first."""
+        ctx, sa = self.ctx, self.sa
+        cols = self.rig.ITEM_COLS
+        cand = [(o, i) for o, i in pairs if i in rows and sa.inspect(o).persistent
+                and any(c not in o.__dict__ for c in cols)]
+        cand.sort(key=lambda p: (not any(c in p[0].__dict__ for c in cols), p[1]))
+        bad = []
+        for o, i in cand[:limit]:
+            missing = [c for c in cols if c not in o.__dict__]
+            diffs = {}
+            for c in missing:
+                v = getattr(o, c)
+                ctx.count("attrs_reloaded_compared")
+                if _norm(v) != _norm(rows[i][cols.index(c)]):
+                    diffs[c] = {"memory": repr(v), "db": repr(rows[i][cols.index(c)])}
+            if diffs:
+                bad.append({"id": i, "what": "reloaded-attr-mismatch", "diffs": diffs, "sentinel": False})
+        return bad
+
     def report(self, bad, steps, stepno, sync, variant, table, pre, rows, raised):
         ctx, sa, orm = self.ctx, self.sa, self.orm
         cls = self.rig.Item if table == "ret" else self.rig.ItemNR
@@ -444,6 +505,21 @@ class Rig:
             unloaded = [b["id"] for b in bad if critcols - set(pre.get(b["id"], {}))]
             if sync in ("evaluate", "auto") and kind == "update" and unloaded:
                 mech = "evaluate-update-unloaded-criteria-attr"
+            else:
+                server = set(self.rig.SERVER_CHANGED_COLS)
+                diffkeys = set()
+                for b in bad:
+                    diffkeys.update(b.get("diffs", {}))
+                if kind == "update" and diffkeys and diffkeys <= server and all(b["what"] == "attr-mismatch" for b in bad):
+                    # only columns the database changes by itself on UPDATE are stale, SET targets are
+                    # fine: matching worked, expiring / prefetching the generated columns did not.
+                    # Was at least one matched in-session object handled correctly?
+                    badids = {b["id"] for b in bad}
+                    cols = self.rig.ITEM_COLS
+                    handled = [i for i, p in pre.items() if i not in badids and i in rows and any(
+                        c in p and _norm(p[c]) != _norm(rows[i][cols.index(c)]) for c in diffkeys)]
+                    what = "server-onupdate" if diffkeys <= {"ts"} else "onupdate" if "ts" not in diffkeys else "generated"
+                    mech = "%s-attribute-not-expired-on-%s-matched-objects" % (what, "later" if handled else "any")
         if mech is None:
             # rebuild the pre-state, localize in criteria, then in the SET values
             if crit is not None and sync in ("evaluate", "auto"):
@@ -536,7 +612,8 @@ def atoms_full():
     out.append(("is", False, "x", "y"))
     out.append(("is", True, "x", "y"))
     # strings
-    for pat in ("a", "a%c", "a_c", "ab", "%", "_", "a/", "a/%c", "c", "bc", "%c", "", "cd", "é"):
+    for pat in ("a", "a%c", "a_c", "ab", "%", "_", "a/", "a/%c", "c", "bc", "%c", "", "cd", "é",
+                "a\n", "\nc", "\n", "a_", "a\n%", "a\r"):
         for kind in ("sw", "ew"):
             out.append((kind, pat, False, None))
             out.append((kind, pat, True, None))
@@ -553,6 +630,13 @@ def atoms_full():
         out.append(("tcmp", op, ("x", "y"), (2, -7)))
     out.append(("tin", False, ("x", "y"), ((0, 2), (2, 2), (-7, 0))))
     out.append(("tin", True, ("x", "y"), ((0, 2), (2, 2), (-7, 0))))
+    # values supplied at execute time
+    out.append(("cmp", "eq", X(), ("param", "px", 2)))
+    out.append(("cmp", "gt", Y(), ("param", "py", -7)))
+    out.append(("cmp", "le", ("bin", "add", X(), ("param", "pd", 2)), Y()))
+    out.append(("cmp", "eq", ("col", "s"), ("param", "ps", "a\nc")))
+    out.append(("inparam", False, X(), "plist", (0, 2)))
+    out.append(("inparam", True, Y(), "plist", (-7,)))
     # margin: not evaluable
     out.append(("between", X(), -7, 0))
     out.append(("distinct", X(), Y()))
@@ -594,6 +678,10 @@ SETS_BASIC = (
 )
 
 SETS_MORE = (
+    (("n", ("param", "pn", 55)),),
+    (("n", ("bin", "add", ("col", "n"), ("param", "pinc", 3))), ("u", ("param", "pu", "a\nb"))),
+    (("u", ("concat", ("col", "s"), L("\nz"))),),
+    (("s", L("a\nc")),),
     (("n", ("bin", "add", X(), Y())),),
     (("n", ("bin", "mod", X(), L(3))),),
     (("n", ("bin", "mod", ("col", "m"), L(7))),),
@@ -679,7 +767,7 @@ def run(ctx):
                                  sample=(ctx.shard == 0 and idx in (9, 1201)))
         ctx.count("family_done")
         # ---- part B: SET expressions x load variants -----------------------
-        crits_b = [None, ("cmp", "gt", X(), L(0)), ("cmp", "le", Y(), L(0)), ("isnull", True, "x"),
+        crits_b = [None, ("cmp", "eq", X(), ("param", "px", 2)), ("sw", "a", False, None), ("cmp", "gt", X(), L(0)), ("cmp", "le", Y(), L(0)), ("isnull", True, "x"),
                    ("or", (("cmp", "eq", X(), L(2)), ("isnull", False, "y"))),
                    ("sw", "a", False, None)]
         for si, setspec in enumerate(SETS_BASIC + SETS_MORE):
